@@ -525,7 +525,8 @@ def finish(prop, tier, seed, ev, results, notes, status, t0):
     kres = [r for r in results if "harness" in r]
     n_checks = sum(r.get("n_checks", 0) for r in kres)
     reach = sum(r.get("reachable_checks", 0) for r in kres)
-    fns = sorted(set(f for r in kres for f in r.get("repo_functions", [])))
+    fns = sorted(set(f for r in kres for f in r.get("repo_functions", [])) |
+                 set("E2(MIR): " + f for r in results if "harness" not in r for f in r.get("functions", [])))
     samples = []
     for r in sorted(results, key=lambda r: r.get("harness", r.get("query", ""))):
         s = {k: r[k] for k in ("harness", "query", "role", "outcome", "wall_s", "why", "bounds", "engine", "known_finding") if k in r}
